@@ -1,6 +1,7 @@
 import Logrange.Proofs.Where
 import Logrange.Proofs.FIter
 import Logrange.Proofs.WhereParse
+import Logrange.Proofs.PathMatch
 import Logrange.Generated.C05
 /-!
 # C05 — WHERE filtering equals the reference meaning of the expression
@@ -199,6 +200,75 @@ theorem select_where_exact {σ : Type} (env : Env) (f : Nat) (toks : List Lql.To
   intro ev hev
   rw [(parsed_where_correct env f toks e flt hp hb ev (hwf ev hev)).2]
 
+
+/-! ### LIKE: Go's `path.Match` against the documented pattern language (`Model/PathSpec.lean`) -/
+
+open Logrange.PathSpec in
+/-- **`path.Match` is the documented shell pattern semantics on every pattern without `*`** (literals, `\` escapes,
+`?`, character classes with ranges and `^`), for every name, valid UTF-8 or not: the algorithm's answer — including
+`ErrBadPattern` — is the specification's (`specMatch`: parse the pattern by the documented grammar, then one piece of
+the name per item). -/
+theorem pathMatch_eq_spec_noStar (p n : Bytes) (h : noStar p = true) :
+    PathMatch.pathMatch p n = specMatch p n := pathMatch_noStar p n h
+
+open Logrange.PathSpec in
+/-- in the requested form: an answer `b` means the pattern is well formed and `b` says whether the name matches -/
+theorem pathMatch_correct_noStar (p n : Bytes) (h : noStar p = true) (b : Bool) :
+    PathMatch.pathMatch p n = some b ↔ (WellFormed p ∧ (b = true ↔ Matches p n)) := by
+  rw [pathMatch_noStar p n h]
+  unfold specMatch WellFormed Matches
+  cases hi : items? p with
+  | none => simp
+  | some its =>
+    simp only [Option.map_some, Option.some.injEq, Option.isSome_some, true_and]
+    constructor
+    · intro hb; subst hb
+      exact ⟨fun hm => ⟨its, rfl, hm⟩, fun ⟨its', he, hm⟩ => by cases he; exact hm⟩
+    · intro hb
+      cases hm : matchItems its n with
+      | true => exact (hb.mpr ⟨its, rfl, hm⟩).symm
+      | false =>
+        cases b with
+        | false => rfl
+        | true =>
+          obtain ⟨its', he, hm'⟩ := hb.mp rfl
+          cases he; rw [hm] at hm'; cases hm'
+
+open Logrange.PathSpec in
+/-- `ErrBadPattern` exactly on the malformed patterns (no `*`), whatever the name: in particular the builder's
+pre-test on the probe name `abc` rejects exactly the patterns that are malformed for every subject -/
+theorem pathMatch_malformed_noStar (p n : Bytes) (h : noStar p = true) :
+    PathMatch.pathMatch p n = none ↔ ¬ WellFormed p := by
+  rw [pathMatch_noStar p n h]
+  unfold specMatch WellFormed
+  cases items? p <;> simp
+
+open Logrange.PathSpec in
+/-- so for a LIKE pattern without `*` the probe decides evaluability on every subject: accepted on `abc` ⇒ never an
+error on any name -/
+theorem like_probe_sound_noStar (p n : Bytes) (h : noStar p = true) (hp : patternOk p = true) :
+    (PathMatch.pathMatch p n).isSome = true := by
+  unfold patternOk at hp
+  have h1 : ¬ PathMatch.pathMatch p sProbe = none := by
+    intro e; rw [e] at hp; cases hp
+  have hw : WellFormed p := by
+    by_cases hw : WellFormed p
+    · exact hw
+    · exact absurd ((pathMatch_malformed_noStar p sProbe h).mpr hw) h1
+  cases hn : PathMatch.pathMatch p n with
+  | some b => rfl
+  | none => exact absurd hw ((pathMatch_malformed_noStar p n h).mp hn)
+
+open Logrange.PathSpec in
+/-- **Why the theorem stops at `*`.** With `*` the implementation commits to the leftmost position where the next
+chunk matches, and it tries positions byte by byte. On `*?*\xAC` against `€` (E2 82 AC) the specification lets `*` take
+the byte E2, `?` the (then invalid) byte 82 and the literal AC the rest — a match; `path.Match` takes `?` = `€` at the
+first position and fails. The equality of the byte-wise existential semantics and Go's greedy algorithm is false on
+names/patterns that are not valid UTF-8 sequences split at character boundaries. -/
+theorem cex_star_greedy_splits_rune :
+    PathMatch.pathMatch [42, 63, 42, 0xAC] [0xE2, 0x82, 0xAC] = some false ∧
+    specMatch [42, 63, 42, 0xAC] [0xE2, 0x82, 0xAC] = some true := by decide
+
 /-- the constants the model reads are the documented ones -/
 theorem code_constants_as_documented :
     Generated.C05.cmpContains = sCONTAINS ∧ Generated.C05.cmpHasPrefix = sPREFIX ∧
@@ -236,5 +306,18 @@ example : ∃ err, buildWhere env0 (some (.cons (.cons (.cond false ⟨idOf sMsg
   like_malformed_rejected env0 false _ (by decide) (by decide) (by decide)
 example : Exhausts (listIt Nat) 3 ⟨[1, 2, 3], 0, false, false⟩ := listIt_exhausts_fwd [1, 2, 3] 3 0 rfl
 example : drain (listIt Nat) (fun x => x != 2) (fun _ => true) 4 4 (new ⟨[1, 2, 3], 0, false, false⟩) = [1, 3] := by decide
+
+/-- `[a-c]x` (no `*`): well formed, matches `bx`, not `dx`; `[` is malformed -/
+example : PathSpec.noStar [91, 97, 45, 99, 93, 120] = true ∧ PathMatch.pathMatch [91, 97, 45, 99, 93, 120] [98, 120] = some true ∧
+    PathMatch.pathMatch [91, 97, 45, 99, 93, 120] [100, 120] = some false ∧ PathMatch.pathMatch [91] [97] = none := by decide
+/-- the tokens of `msg contains "a" AND ts < "10" OR NOT fields:a = "x" AND msg prefix "b"` -/
+def cA : Lql.Cond := ⟨.mk sMsg .nil, [67, 79, 78, 84, 65, 73, 78, 83], [97]⟩
+def cB : Lql.Cond := ⟨.mk sTs .nil, sLT, [49, 48]⟩
+def cC : Lql.Cond := ⟨.mk [102, 105, 101, 108, 100, 115, 58, 97] .nil, sEQ, [120]⟩
+def cD : Lql.Cond := ⟨.mk sMsg .nil, [80, 82, 69, 70, 73, 88], [98]⟩
+example : atomOk (false, cA) = true ∧ atomOk (false, cB) = true ∧ atomOk (true, cC) = true ∧ atomOk (false, cD) = true := by decide
+example : ∃ e, Lql.dExpr 40 (Lql.toksCond cA ++ Lql.tAND :: (Lql.toksCond cB ++ Lql.tOR :: Lql.tNOT :: (Lql.toksCond cC ++ Lql.tAND :: Lql.toksCond cD))) = some (e, [])
+    ∧ (buildWhere env0 (some (trExpr e))).toBool = true :=
+  ⟨_, parse_or_and_not cA cB cC cD 40 (by decide) (by decide) (by decide) (by decide) (by decide), by decide⟩
 
 end Logrange.Props.C05
